@@ -195,6 +195,7 @@ class SrvAdapter:
         self.flags = {'raiseDisc': []}
         self.maxid = {}
         self.bg = []
+        self.nbg = 0
         self.bgexc = []
         self.wait_script = None
         self.call_results = []
@@ -211,8 +212,16 @@ class SrvAdapter:
                                       daemon=True)
                 th.start()
                 self.bg.append(th)
+                self.nbg += 1
                 return th
             sio.eio.start_background_task = sbt
+        else:
+            orig_sbt = sio.eio.start_background_task
+
+            def asbt(target, *a, **k):
+                self.nbg += 1
+                return orig_sbt(target, *a, **k)
+            sio.eio.start_background_task = asbt
         self._register_handlers()
 
     # ------------------------------------------------------------ handlers
@@ -402,6 +411,7 @@ class SrvAdapter:
         self.hc = []
         self.cbs = []
         self.bgexc = []
+        self.nbg = 0
         del self.tap.seen[:]
         res = ['ok']
         act = a['act']
@@ -504,7 +514,7 @@ class SrvAdapter:
             rset = res[1:]
             res = ['ok']
         out = {'pk': self._drain(), 'hc': self._sorted_hc(a), 'res': res,
-               'cbs': self.cbs, 'set': rset}
+               'cbs': self.cbs, 'set': rset, 'bg': self.nbg}
         return out
 
     def _sorted_hc(self, a):
